@@ -109,6 +109,7 @@ func init() {
 			{"cache-ro", "no write (field, element, delete/clear/copy, or through a parameter-mutating callee) through a native cache obtained with GetROCache, on any path (isCacheRW idiom handled by boolean correlation)", ruleCacheRO},
 			{"det-sources", "no wall clock, random source, environment or scheduler introspection is read in the closure of block processing except for values that flow only into logging/metrics", ruleDetSources},
 			{"det-maprange", "every map iteration in the closure of block processing is order-insensitive (keyed updates, or collected then sorted) or tabled with a reason", ruleDetMapRange},
+			{"cfg-local", "no field of the node-local configuration (config.Ledger, NeoFS fetchers, ApplicationConfiguration) is read in the execution closure, one tabled exception", ruleCfgLocal},
 			{"cache-key-shape", "all keyed accesses of one native cache map use keys of the same shape (none mixes whole prefixed storage keys with prefix-stripped ones)", ruleCacheKeyShape},
 			{"derived-invalidation", "every state-changing writer of a cache field that NEO.computeCommitteeMembers reads marks the NEO cache dirty (votesChanged), since the recomputation is skipped otherwise", ruleDerivedInvalidation},
 			{"cache-copy", "Copy() of every native cache gives the new DAO layer its own copy of every map/slice/pointer field, except the tabled replace-only fields, which are never modified in place anywhere", ruleCacheCopy},
